@@ -258,6 +258,8 @@ def classes():
         "Dipole": (magpy.misc.Dipole, dict(moment=(1, 2, 3))),
         "Sensor": (magpy.Sensor, dict(pixel=[(0, 0, 0), (0.1, 0, 0)])),
         "CustomSource": (magpy.misc.CustomSource, dict(field_func=_ff_ok)),
+        "Collection": (lambda **kw: magpy.Collection(magpy.magnet.Sphere(diameter=1, polarization=(0, 0, 1), position=(1, 0, 0)),
+                                                     magpy.Sensor(position=(0, 1, 0)), **kw), dict()),
         "TriangularMesh": (magpy.magnet.TriangularMesh, dict(vertices=TV, faces=[(0, 2, 1), (0, 1, 3), (0, 3, 2), (1, 2, 3)], polarization=pol,
                                                              check_open="ignore", check_disconnected="ignore",
                                                              check_selfintersecting="ignore", reorient_faces="ignore")),
@@ -274,9 +276,9 @@ SPEC = {
 for _c in ("Cuboid", "Cylinder", "CylinderSegment", "Sphere", "Tetrahedron", "Triangle"):
     SPEC[(_c, "polarization")] = vec(3)
     SPEC[(_c, "magnetization")] = vec(3)
-for _c in ("Cuboid", "Circle", "Sensor", "Dipole", "Tetrahedron"):
+for _c in ("Cuboid", "Cylinder", "CylinderSegment", "Sphere", "Tetrahedron", "Triangle", "Circle", "Polyline", "Dipole", "Sensor",
+           "CustomSource", "Collection"):
     SPEC[(_c, "position")] = path
-for _c in ("Cuboid", "Sensor", "Polyline"):
     SPEC[(_c, "orientation")] = orient
 SPEC[("CustomSource", "field_func")] = fieldfunc
 SPEC[("TriangularMesh", "vertices")] = meshverts
@@ -287,6 +289,8 @@ SPEC[("TriangularMesh", "position")] = path
 
 def snap(o):
     d = {}
+    for i, ch in enumerate(getattr(o, "_children", [])):   # a rejected assignment on a Collection must not move its children
+        d[f"child{i}"] = (ch._position.shape, ch._position.tobytes(), ch._orientation.as_quat().tobytes(), id(ch._parent))
     for k, v in vars(o).items():
         if k in ("_style", "_style_kwargs", "_parent"):
             continue
@@ -343,7 +347,9 @@ def check_one(task):
                 problems.append(("invalid-value-accepted", via))
                 # does it blow up later inside the field computation?
                 try:
-                    if cls != "Sensor":
+                    if cls == "Collection":
+                        B = o.getB()
+                    elif cls != "Sensor":
                         B = o.getB((7.0, 8.0, 9.0))
                     else:
                         B = o.getB(C0())
@@ -409,13 +415,15 @@ def check_one(task):
         for fname in ("getB", "getH"):
             try:
                 with common.time_limit(20):
-                    if cls != "Sensor":
+                    if cls == "Collection":
+                        B = getattr(o, fname)()          # sources and sensors are both inside
+                    elif cls != "Sensor":
                         B = getattr(o, fname)([(7.0, 8.0, 9.0), (-3.0, 2.0, 5.0)])
                     else:
                         B = getattr(o, fname)(C0())
                 if not np.all(np.isfinite(B)):
                     problems.append((f"{fname}-nonfinite", via))
-                if cls != "Sensor" and np.shape(B)[-2:] != (2, 3):
+                if cls not in ("Sensor", "Collection") and np.shape(B)[-2:] != (2, 3):
                     problems.append((f"{fname}-wrong-shape-{np.shape(B)}", via))
             except MagpylibMissingInput:
                 if v is not None and attr != "field_func":
